@@ -61,6 +61,7 @@ type Engine struct {
 	tolerant bool
 	feas     *Solver
 	nfeas    int
+	npruned  int
 	rangeMap []string // range-over-map sites met (C14 evidence)
 	notes    []string
 	prefix   string
@@ -324,6 +325,15 @@ func (e *Engine) exec(fr *Frame, b *ssa.BasicBlock, st *State, stop *ssa.BasicBl
 					panic(unsupported("unwinding bound %d too small at %s", e.unwind, e.where(t.Cond)))
 				}
 			}
+			// infeasible error paths are pruned before they are executed (DESIGN §4.2)
+			if pcA != FalseT && e.isErrorBlock(b.Succs[0]) && e.infeasible(st, pcA) {
+				pcA = FalseT
+				e.npruned++
+			}
+			if pcB != FalseT && e.isErrorBlock(b.Succs[1]) && e.infeasible(st, pcB) {
+				pcB = FalseT
+				e.npruned++
+			}
 			saved := fr.regs
 			var endA, endB *State
 			var regsA, regsB map[ssa.Value]Value
@@ -367,6 +377,29 @@ func (e *Engine) exec(fr *Frame, b *ssa.BasicBlock, st *State, stop *ssa.BasicBl
 			panic(unsupported("block without terminator in %s", fr.fn))
 		}
 	}
+}
+
+var errBlockCache = map[*ssa.BasicBlock]bool{}
+
+// isErrorBlock: the block appends to a diag.Diagnostics (the generated code's error paths).
+func (e *Engine) isErrorBlock(b *ssa.BasicBlock) bool {
+	if v, ok := errBlockCache[b]; ok {
+		return v
+	}
+	r := false
+	for _, ins := range b.Instrs {
+		if c, ok := ins.(*ssa.Call); ok {
+			if f := c.Call.StaticCallee(); f != nil {
+				n := f.String()
+				if strings.HasSuffix(n, "diag.Diagnostics).Append") || strings.HasSuffix(n, "diag.Diagnostics).AddError") {
+					r = true
+					break
+				}
+			}
+		}
+	}
+	errBlockCache[b] = r
+	return r
 }
 
 func cloneRegs(r map[ssa.Value]Value) map[ssa.Value]Value {
@@ -721,7 +754,13 @@ func (e *Engine) next(fr *Frame, x *ssa.Next, st *State) {
 	// the s-th call returns the s-th *present* entry: entry j with P_j and |{i<j : P_i}| == s
 	s := it.Step
 	n := len(it.Ents)
-	var k, v Value = zero(tt.At(1).Type()), zero(tt.At(2).Type())
+	var k, v Value
+	if tt.At(1).Type() != types.Typ[types.Invalid] {
+		k = zero(tt.At(1).Type())
+	}
+	if tt.At(2).Type() != types.Typ[types.Invalid] {
+		v = zero(tt.At(2).Type())
+	}
 	ok := FalseT
 	if s < n {
 		cnt := make([][]*Term, n+1)
